@@ -81,6 +81,7 @@ func init() {
 	h18.Replay = func(c *rt.Ctx, raw json.RawMessage) string {
 		var sc struct {
 			Race     *metricsRace `json:"metrics_race"`
+			Scrape   *scrapeRace  `json:"scrape_race"`
 			Value    *uint64      `json:"value"`
 			Sampled  bool         `json:"sampled"`
 			Previous []uint64     `json:"previous"`
@@ -90,6 +91,18 @@ func init() {
 			return "bad scenario: " + err.Error()
 		}
 		switch {
+		case sc.Scrape != nil:
+			var r *metricsRaceResult
+			sched.Bubble(c.T, func() { r = runScrapeRace(*sc.Scrape, sc.Scrape.Choices) })
+			out := fmt.Sprintf("program %+v\nschedule: %s\noutcome: %s\n", *sc.Scrape, r.S.Describe(), r.Outcome)
+			if len(r.Findings) == 0 {
+				return out + "OK: no finding"
+			}
+			s := "VIOLATION reproduced:\n"
+			for _, f := range r.Findings {
+				s += "  " + f.Sig + " :: " + f.What + "\n"
+			}
+			return s + out
 		case sc.Race != nil:
 			var r *metricsRaceResult
 			sched.Bubble(c.T, func() { r = runMetricsRace(*sc.Race, sc.Race.Choices) })
